@@ -101,7 +101,7 @@ QuickDomains ==
    DomP("inst2", InInitAfterClassAttr, AlphaInst \ {<<"class", "none">>, <<"init", "-">>}, 6, 3, {"f"}),
    DomP("instnm", InInit, AlphaNoMember, 5, 3, {"f"})}
 ThoroughDomainsA ==
-  {Dom("all", AlphaAll, 2, 1, {"f", "g"}), Dom("deco", AlphaDeco, 3, 2, {"f", "g"}), Dom("bind", AlphaBind, 4, 2, {"f", "g"}),
+  {Dom("all", AlphaAll, 2, 1, {"f", "g"}), Dom("deco", AlphaDeco, 3, 2, {"f", "g"}), Dom("bind", AlphaBind \ {<<"import", "multi">>}, 4, 2, {"f", "g"}), Dom("bind3", AlphaBind, 3, 2, {"f", "g"}),
    Dom("cond", AlphaCond \ {<<"with", "-">>, <<"import", "from">>}, 5, 2, {"f"}), Dom("imp", AlphaImp \ {<<"import", "multi">>, <<"import", "frommulti">>}, 4, 2, {"f"}),
    Dom("imp2", AlphaImp, 3, 2, {"f", "g"})}
 ThoroughDomainsB ==
@@ -109,7 +109,7 @@ ThoroughDomainsB ==
    Dom("attr", AlphaAttr \ {<<"assign", "classvar">>, <<"assign", "selfann">>}, 4, 2, {"f", "g"}), Dom("attr3", AlphaAttr, 3, 2, {"f", "g"}),
    DomP("inst", InInit, AlphaInst \ {<<"class", "none">>, <<"init", "-">>}, 6, 3, {"f"}), DomP("instc", InInit, AlphaInst, 5, 3, {"f"}),
    DomP("inst2", InInitAfterClassAttr, AlphaInst \ {<<"class", "none">>, <<"init", "-">>}, 7, 3, {"f"}),
-   DomP("instnm", InInit, AlphaNoMember, 6, 3, {"f", "g"})}
+   DomP("instnm", InInit, AlphaNoMember, 5, 3, {"f", "g"}), DomP("instnm6", InInit, AlphaNoMember, 6, 3, {"f"})}
 \* small domains in which each known defect shows (Strict = TRUE)
 DefectDomains == {Dom("smoke", AlphaSmoke, 3, 2, {"f"}), Dom("bind", AlphaBind \ {<<"import", "multi">>}, 3, 2, {"f"})}
 NameOrder == <<"f", "g", "h">>
